@@ -25,6 +25,30 @@ EXTRA = {
  "C19": "  Received messages stay in use until the end of their history (descriptor lists must not be reused); credentials may be asked for only at receive time.  Both directions of one socket in use at once; negative descriptor values.",
  "C20": "  Memory limits at the top of the range and off page boundaries; Destroy of a group that still has sub-groups.  A pids limit of 0 and the suffixes of the statistics files.",
 }
+# the source tie by translation (lib/srcthm.py, coq/srcthm/, tools/goxlate): what it adds per property
+SRC = ("  SOURCE TRANSLATION, re-done on every run: tools/goxlate (go/ast + go/types) translates forkAndExecInChild and prepareFds of /repo/pkg/forkexec into the "
+       "Gallina IR of Launch/ChildIR.v (statements, integer expressions, raw system calls with the variables their results go to; every constant with the value "
+       "the Go type checker computes); the IR interpreter runs it against a kernel oracle (any call may fail with any errno, exec may succeed); coq/srcthm/ChildSrcThm.v "
+       "is re-proved against the translation: ")
+EXTRA6 = {
+ "C04": SRC + "C04_source_issues_specified_calls - for all 4096 combinations of the twelve interacting options x the nine others all off / all on (thorough: also exactly one on / "
+        "one off) and for the nine others exhaustively with the twelve all off / all on, the calls that set identity, privileges, filter, session, names, working directory, cgroup "
+        "namespace and tracing, with their arguments and the clone flags, are those of the specification Launch/ChildSeq.v child_calls, in its order.",
+ "C05": SRC + "C05_source_issues_specified_calls (private root, tmpfs root, pivot, detach, read-only root: calls and flag words as specified, for the same option domains) and "
+        "SRC_loops_as_specified (130 lists of mounts: directories / node created for the target, the mount, the remount of a read-only bind keeping exactly what statfs reports of "
+        "nosuid/nodev/noexec/noatime/nodiratime/relatime; every call failing with six errnos is reported with its location and the index of the entry; EEXIST on a mount point is tolerated).",
+ "C06": SRC + "C06_source_shuffle_is_model - for 4404 descriptor configurations (all lists of at most three entries over {-1,0,1,2,3,5,12} x ten placements of sync socket and exec "
+        "descriptor, lists with a closed number, longer lists) the dup3/fcntl/close calls the source issues, replayed on the kernel table of FdShuffle.v, leave exactly the table of "
+        "FdShuffle.shuffle (about which C06_shuffle is proved for every list), with the sync socket and exec descriptor where the source goes on using them.",
+ "C07": SRC + "C07_source_issues_specified_calls (start of the child, sync exchange, exec), C07_source_failed_step_never_runs (every call of the child failed in turn, errnos EIO / EPERM / "
+        "EEXIST in rotation: reported over the sync socket with the location of the step, nothing else is done, no exec; only sethostname / setdomainname / unshare / nanosleep results "
+        "may be ignored), C07_source_refusal_never_runs (end of file on the sync socket, a sync write that reaches nobody, a short or failing id-map answer: the child exits, no exec), "
+        "C07_source_gate_before_exec (one sync write, then the read that waits for approval, then only cgroup namespace / last privileges / filter / tracer attach, then the one exec), "
+        "SRC_loops_as_specified (failing mount / limit entries are reported with their index).",
+ "C08": SRC + "SRC_loops_as_specified - one prlimit64 per configured limit, in the order of the list, with the entry's resource and value; a refused limit is reported as LocSetRlimit with the index of the entry and the program never runs.",
+ "C16": SRC + "C16_source_issues_specified_calls - a traced child asks for SIGKILL on the death of the launching thread (PR_SET_PDEATHSIG) and looks whether the launcher is gone already "
+        "(getppid, except in a new pid namespace), after its privileges are dropped and before it syncs, stops or attaches, for every option combination of the domains above.",
+}
 ROOT = os.path.dirname(os.path.dirname(os.path.abspath(__file__)))
 
 CLAIMED = {
@@ -393,9 +417,9 @@ def main():
               "evidence_file": "evidence/%s.json" % i,
               "replay_cmd_template": "./check %s --replay {path}" % i,
               "engine": "coq-gs",
-              "level_claimed": {"category": "proof", "text": c["text"] + EXTRA.get(i, ""), "design_ref": c["design"]},
-              "level_note": c["note"],
-              "technique": c["technique"],
+              "level_claimed": {"category": "proof", "text": c["text"] + EXTRA.get(i, "") + EXTRA6.get(i, ""), "design_ref": c["design"]},
+              "level_note": c["note"] + ("  Source translation: trusted are tools/goxlate (syntax directed, refuses what it does not know), the IR interpreter's reading of Go statements, and the kernel oracle; the theorems hold on the stated finite option domains (proved by evaluation in Coq, sixteen shards), not for option values outside them (representative numbers stand for descriptor numbers and ids)." if i in EXTRA6 else ""),
+              "technique": c["technique"] + (" + translation of the launch code (Go AST -> Gallina IR) re-proved against the specification on every run" if i in EXTRA6 else ""),
             })
         else:
             m["not_applicable"].append({"property_id": i, "reason": PENDING_REASON})
